@@ -42,6 +42,34 @@ use boa_parser::{Parser, Source};
 
 use super::{BuiltInBuilder, IntrinsicObject};
 
+/// The deepest nesting of arrays and objects in a valid JSON text.
+fn json_nesting_depth(text: &str) -> usize {
+    let (mut depth, mut deepest) = (0_usize, 0_usize);
+    let (mut in_string, mut escaped) = (false, false);
+    for byte in text.bytes() {
+        if in_string {
+            if escaped {
+                escaped = false;
+            } else if byte == b'\\' {
+                escaped = true;
+            } else if byte == b'"' {
+                in_string = false;
+            }
+        } else {
+            match byte {
+                b'"' => in_string = true,
+                b'[' | b'{' => {
+                    depth += 1;
+                    deepest = deepest.max(depth);
+                }
+                b']' | b'}' => depth = depth.saturating_sub(1),
+                _ => {}
+            }
+        }
+    }
+    deepest
+}
+
 /// Converts a nibble (0-15) to its lowercase hex digit as a UTF-16 code unit.
 const fn to_hex_digit(val: u16) -> u16 {
     match val & 0xF {
@@ -247,8 +275,18 @@ impl Json {
 
         // 2. Parse ! StringToCodePoints(jsonString) as a JSON text as specified in ECMA-404.
         //    Throw a SyntaxError exception if it is not a valid JSON text as defined in that specification.
-        if let Err(e) = serde_json::from_str::<serde_json::Value>(&json_string) {
+        //    Only the grammar is checked here: building a `serde_json::Value` would also reject
+        //    valid texts it cannot represent (escaped lone surrogates, numbers beyond the range
+        //    of a double, deep nesting).
+        if let Err(e) = serde_json::from_str::<serde::de::IgnoredAny>(&json_string) {
             return Err(JsNativeError::syntax().with_message(e.to_string()).into());
+        }
+        // The text is parsed again below by a recursive parser: keep the nesting bound that
+        // building a `serde_json::Value` used to impose.
+        if json_nesting_depth(&json_string) > 128 {
+            return Err(JsNativeError::syntax()
+                .with_message("recursion limit exceeded")
+                .into());
         }
 
         // Check if a reviver is provided, to determine if we need source text tracking
